@@ -207,25 +207,21 @@ def msgOf : Push → Option (Bytes × Bytes)
   | .message _ n m => some (n, m)
   | _ => none
 
-/-- first position of `x` in `l` -/
-def posOf (l : List (Bytes × Bytes)) (x : Bytes × Bytes) : Option Nat := l.idxOf? x
+def increasing : List Nat → Bool
+  | a :: c :: r => a < c && increasing (c :: r)
+  | _ => true
 
-/-- publish order per (publisher, channel): on every connection and under every label, an earlier publish is not
-    observed after a later one (checked when the payloads of the block are pairwise distinct) -/
+/-- publish order per (publisher, channel): on every connection and under every label, the messages of one publisher
+    to one channel are observed in the order they were published (checked when the payloads of the block are pairwise
+    distinct, so that an observed message identifies its publish) -/
 def fifoOk (pubs : List Pub) (received : List (Bytes × Bytes)) : Bool :=
   let payloads := pubs.map (·.payload)
   if payloads.eraseDups.length != payloads.length then true else
+  let groups := (pubs.map fun p => (p.publisher, p.channel)).eraseDups
   let labels := (received.map (·.1)).eraseDups
-  let rec go : List Pub → Bool
-    | [] => true
-    | p :: rest =>
-      (rest.all fun q =>
-        !(q.publisher == p.publisher && q.channel == p.channel) ||
-        labels.all fun l =>
-          match posOf received (l, p.payload), posOf received (l, q.payload) with
-          | some i, some j => i < j
-          | _, _ => true) && go rest
-  go pubs
+  groups.all fun g =>
+    let ps := (pubs.filter fun p => p.publisher == g.1 && p.channel == g.2).map (·.payload)
+    labels.all fun l => increasing ((received.filter (·.1 == l)).filterMap fun r => ps.idxOf? r.2)
 
 /-- the verdict of the reference on one block: `pre`/`post` tables as dumped from the implementation, the commands
     with the replies observed, and per connection the pushes it received during the block, in order -/
